@@ -208,7 +208,8 @@ def parse_globbed_version(text, orig_text):
                 f"operator {op!r} invalid with globbed version: {version_txt!r}"
             )
         raise ParseError(f"missing valid package version: {orig_text!r}")
-    restrictions.append(restricts.VersionMatch(op, version.group(0)))
+    # an explicit (empty) revision: with rev=None "1.0-r0" and "1.00" would not equal "1.0"
+    restrictions.append(restricts.VersionMatch(op, version.group(0), cpv.Revision("")))
     # parse the remaining chunk
     restrictions.append(parse_match(chunks[0]))
     return restrictions
